@@ -186,6 +186,10 @@ def value_variants(args, kwitems):
     if len(args) >= 2:
         from . import shapes as S_
         yield tuple(args[:-2]) + (S_.FOREIGN, S_.kw_value(S_.FOREIGN)), kwitems
+    # one argument that is the tuple of the positionals / of their tail: f((a, b)) is not f(a, b), f(a, (b, c)) is not f(a, b, c)
+    if len(args) >= 2:
+        yield (tuple(args),), kwitems
+        yield (args[0], tuple(args[1:])), kwitems
     for v in VARIANTS:
         if args:
             yield (v,) + tuple(args[1:]), kwitems
